@@ -14,13 +14,15 @@ def sh(cmd, cwd=WT, timeout=900):
 
 
 def main():
-    only = sys.argv[1:]
+    only = [a for a in sys.argv[1:] if not a.startswith('--')]
+    src_dir = next((a.split('=', 1)[1] for a in sys.argv[1:] if a.startswith('--src=')), '/tmp/mut/out')
+    tag = next((a.split('=', 1)[1] for a in sys.argv[1:] if a.startswith('--tag=')), '')
     if not os.path.isdir(WT):
         subprocess.run(['git', '-C', '/repo', 'worktree', 'add', '-q', '--detach', WT, 'HEAD'], check=True)
     head = subprocess.run(['git', '-C', '/repo', 'rev-parse', '--short', 'HEAD'], capture_output=True, text=True).stdout.strip()
-    for d in sorted(glob.glob('/tmp/mut/out/C*/m*')):
+    for d in sorted(glob.glob(src_dir + '/C*/m*')):
         prop = d.split('/')[-2]
-        mid = f"{prop}-{d.split('/')[-1]}"
+        mid = f"{prop}-{tag}{d.split('/')[-1]}"
         if only and mid not in only and prop not in only:
             continue
         patch, demo = os.path.join(d, 'patch.diff'), os.path.join(d, 'demo.rs')
